@@ -163,6 +163,14 @@ def main():
              "kind_free_text": "fork-based worker farm running generated cases against the real pharmpy code under monitors; merges monitor counters into evidence"},
             {"name": "denote", "path": "vp/denote.py", "serves_properties": [p for p in ("C01", "C02", "C04", "C07", "C08", "C09") if p in READY],
              "kind_free_text": "semantic oracle: vp.nmtran_ref (independent NM-TRAN interpreter) and vp.ir_eval (independent evaluator of the model IR) compared at sampled environments in 50-digit arithmetic"},
+            {"name": "contracts", "path": "vp/contracts.py", "serves_properties": ["C06"],
+             "kind_free_text": "runtime contracts (argument snapshots compared after every call, well-formedness of results, equality/hash laws) wrapped around the public API and rebound in every pharmpy module"},
+            {"name": "sched", "path": "vp/sched.py", "serves_properties": ["C15"],
+             "kind_free_text": "controlled scheduler: private instances of lock.py with shimmed threading/fcntl/os on a simulated POSIX record-lock kernel; every lock, condition and system call is a scheduling point"},
+            {"name": "crashfs", "path": "vp/crashfs.py", "serves_properties": ["C16"],
+             "kind_free_text": "audit-hook fault injection: exception, process death or torn last write before the k-th file-system mutation event, in forked children"},
+            {"name": "xproc", "path": "vp/xproc_child.py", "serves_properties": ["C12"],
+             "kind_free_text": "fresh interpreters under other PYTHONHASHSEED values rebuilding the same models and reporting keys and digests"},
         ],
         "checks": checks,
         "not_applicable": na,
